@@ -35,13 +35,41 @@ COMPONENTS = {
     "real": ["_gradient.py (least squares, merged estimation)", "function estimators", "samplers (built-in)", "EnsembleEvaluator", "VariableScaler"],
     "stub": ["affine world + SimEvaluator", "sim/inject sampler", "sim/scripted optimizer"],
 }
-PROBES = ["several_samplers_with_mask", "gradient_at_near_duplicate_point", "gradients_compared", "merged_compared", "merged_identical", "merged_shared", "ill_conditioned_trivial", "stddev_compared",
+PROBES = ["evaluator_object_kept", "several_samplers_with_mask", "gradient_at_near_duplicate_point", "gradients_compared", "merged_compared", "merged_identical", "merged_shared", "ill_conditioned_trivial", "stddev_compared",
           "fixed_entries_checked", "cached_function_path", "weighted_gradient_compared", "with_failed_perturbation",
           "builtin_sampler", "filtered_gradient"]
 
 
+def _generate_sequence(rng: random.Random) -> dict:
+    """One EnsembleEvaluator object kept by the user and asked several times: functions, gradients or both, at points
+    that share their free variables and differ in the fixed ones (or differ everywhere, or not at all)."""
+    scn = gen.base_scenario(rng, PROP, world_kind="affine", nv=rng.randint(2, 4), nr_max=3, npert_max=5, no_max=2, nc_max=1,
+                            merge=False, stddev=False, linear=False, transforms=False, mask=True, filters=False,
+                            script_len=1, inject_p=0.6, rms=None, pms=None, step="optimizer", bounds_style="none")
+    cfg = scn["configs"][0]
+    nv = len(scn["world"]["var_ids"])
+    cfg["gradient"]["number_of_perturbations"] = max(cfg["gradient"]["number_of_perturbations"], nv + 1)
+    cfg["gradient"].pop("perturbation_min_success", None)
+    mask = cfg["variables"].get("mask") or [True] * nv
+    x = [float(v) for v in cfg["variables"]["initial_values"]]
+    reqs = []
+    for _ in range(rng.randint(2, 5)):
+        reqs.append({"op": rng.choice(["f", "g", "g", "fg"]), "x": list(x)})
+        move = rng.choice(["fixed", "fixed", "none", "all"])
+        if move != "none":
+            x = [v + (rng.choice([-1, 1]) * round(rng.uniform(0.3, 2.0), 2) if (move == "all" or not mask[i]) else 0.0)
+                 for i, v in enumerate(x)]
+    scn["requests"] = reqs
+    scn["faults"] = []
+    scn["entry"] = "evaluator_object_sequence"
+    scn["stratum"] = "evaluator-object-kept"
+    return scn
+
+
 def generate(seed: int, index: int, tier: str) -> dict:
     rng = random.Random(seed)
+    if index % 10 == 7:
+        return _generate_sequence(rng)
     merge = rng.random() < 0.35
     scn = gen.base_scenario(rng, PROP, world_kind="affine", nv_max=4, nr_max=4, npert_max=6, no_max=2, nc_max=2,
                             merge=merge, stddev=(False if merge else None), linear=False,
@@ -113,6 +141,11 @@ def execute(scn: dict) -> dict:
 
     compared = 0
     world = ctx.world
+    if scn.get("entry") == "evaluator_object_sequence":
+        probe("evaluator_object_kept")
+        for e in ctx.exits:
+            if e[0] != "ret":
+                viol.append({"clause": "run-raised", "sig": {"entry": "evaluator-object-kept"}, "detail": f"request {e[1]}: {e}"})
     for ln in oracles.linked_results(ctx):
         if ln.is_function or ln.call is None or ln.rows is None:
             continue
